@@ -1331,3 +1331,277 @@ func init() {
 		}
 	})
 }
+
+func init() {
+	wrapRun("C16", func(c *core.Ctx) {
+		// R16g: a hand-written io.Reader in the input path decides itself what happens to the source's errors (seed C16-7
+		// retried on every non-EOF error: Read never returns) = C09 R09c/R09d; K9 of C03 is the same loop seen from the
+		// termination side
+		if c.CountRule("R16g") == 0 {
+			importRules(c, "C09", map[string]string{"R09c": "R16g", "R09d": "R16g"})
+			c.Floor("R16g", 2, "no raw Read, no hand-written reader in library code")
+		}
+		// R16h: a reader failure must not be turned into a clean end of input: io.EOF is reported/manufactured only on
+		// evidence that the source is exhausted (= C05 R05a.i/R05i for the hierarchical readers, C04 R04k for XML/JSON;
+		// seed C16-8 replaced a remembered input failure by io.EOF to run the end-of-input wrap-up)
+		if c.CountRule("R16h") == 0 {
+			importRules(c, "C05", map[string]string{"R05a.i": "R16h", "R05i": "R16h"})
+			importRules(c, "C04", map[string]string{"R04k": "R16h"})
+			c.Floor("R16h", 6, "EOF sites of the hierarchical and the XML/JSON readers")
+		}
+	})
+}
+
+// ---------------------------------------------------------------- exclusive JavaScript runtimes (C20)
+
+// exclusiveRuntime: a goja runtime is a mutable object: the arguments of a call are its globals while the script runs.
+// Two calls may use the same runtime only one after the other. The runtime a program is run on must therefore be obtained
+// exclusively: freshly created (goja.New) or taken out of a sync.Pool (Get removes it from the pool until Put). A runtime
+// looked up in shared state (a map keyed by the transform context, a field, a package-level variable) can be in use by
+// another goroutine at the same time (seed C20-8 pinned one runtime per transformctx.Ctx in a sync.Map).
+func exclusiveRuntime(c *core.Ctx, rule string) {
+	c.SSA()
+	n := 0
+	for _, f := range c.RepoFunctions() {
+		if core.IsCLIOrSample(core.FuncPkg(f)) {
+			continue
+		}
+		for _, ci := range core.Calls(f) {
+			if !(isGojaMethod(ci, "Runtime", "RunProgram") || isGojaMethod(ci, "Runtime", "RunString") || isGojaMethod(ci, "Runtime", "RunScript")) {
+				continue
+			}
+			n++
+			key := core.FuncKey(f) + " runs the program on an exclusively held runtime"
+			bad := ""
+			seen := map[ssa.Value]bool{}
+			var origin func(v ssa.Value, d int)
+			origin = func(v ssa.Value, d int) {
+				if v == nil || seen[v] || bad != "" {
+					return
+				}
+				seen[v] = true
+				if d > 12 {
+					bad = "origin too deep to follow"
+					return
+				}
+				switch x := v.(type) {
+				case *ssa.Phi:
+					for _, e := range x.Edges {
+						origin(e, d+1)
+					}
+				case *ssa.TypeAssert:
+					origin(x.X, d+1)
+				case *ssa.Extract:
+					origin(x.Tuple, d+1)
+				case *ssa.ChangeType:
+					origin(x.X, d+1)
+				case *ssa.MakeInterface:
+					origin(x.X, d+1)
+				case *ssa.Const:
+					// nil initial value
+				case *ssa.UnOp:
+					if x.Op == token.MUL {
+						switch a := x.X.(type) {
+						case *ssa.Alloc:
+							for _, r := range core.Referrers(a) {
+								if st, ok := r.(*ssa.Store); ok && st.Addr == a {
+									origin(st.Val, d+1)
+								}
+							}
+							return
+						case *ssa.FreeVar:
+							if b := closureBinding(f, a); b != nil {
+								if al, ok := b.(*ssa.Alloc); ok {
+									for _, r := range core.Referrers(al) {
+										if st, ok := r.(*ssa.Store); ok && st.Addr == al {
+											origin(st.Val, d+1)
+										}
+									}
+									return
+								}
+							}
+						}
+					}
+					bad = "a value loaded from memory (" + x.String() + ")"
+				case *ssa.Call:
+					if isGojaFunc(x, "New") || poolGetCall(x) {
+						return
+					}
+					bad = "the result of " + x.Call.String()
+				case *ssa.Parameter:
+					bad = "parameter " + x.Name() + " (the caller's runtime)"
+				default:
+					bad = fmt.Sprintf("%s (%T)", v.Name(), v)
+				}
+			}
+			origin(ci.Common().Args[0], 0)
+			if bad == "" {
+				c.OK(rule, key, core.InstrPos(ci), "every origin of the runtime is goja.New() or sync.Pool.Get")
+			} else {
+				c.Bad(rule, key, core.InstrPos(ci), "the runtime the program runs on can be "+bad+", which is neither freshly created nor taken out of a sync.Pool: two calls running at the same time can be given the same runtime and see or overwrite each other's arguments and _node")
+			}
+		}
+	}
+	if n == 0 {
+		c.Unresolved(rule, "program runner", "no repository function runs a goja program")
+	}
+}
+
+func init() {
+	wrapRun("C20", func(c *core.Ctx) {
+		if c.CountRule("R20g") == 0 {
+			exclusiveRuntime(c, "R20g")
+		}
+	})
+	wrapRun("C14", func(c *core.Ctx) {
+		if c.CountRule("R14h") == 0 {
+			exclusiveRuntime(c, "R14h")
+		}
+	})
+}
+
+// ---------------------------------------------------------------- pooled containers are handed back empty
+
+// pooledContainersBlank: a map or slice that is recycled through a sync.Pool carries its contents to whoever gets it
+// next — possibly another goroutine, another transform. Every path from a write into the container to the point where
+// it goes back to the pool must pass a point that empties it: clear(x), or a call that hands x to a function which
+// deletes the entries it ranges over. With a deferred Put this includes every early error return (seed C20-7: the
+// argument map of a javascript call was pooled, and a call rejected half way through its argument list returned before
+// the function that empties the map was reached).
+func pooledContainersBlank(c *core.Ctx, rule string) {
+	c.SSA()
+	n := 0
+	clearsParam := func(g *ssa.Function, pi int) bool {
+		if g == nil || g.Blocks == nil || pi >= len(g.Params) {
+			return false
+		}
+		p := g.Params[pi]
+		fns := append([]*ssa.Function{g}, g.AnonFuncs...)
+		for _, h := range fns {
+			for _, ci := range core.Calls(h) {
+				bi, ok := ci.Common().Value.(*ssa.Builtin)
+				if !ok || (bi.Name() != "delete" && bi.Name() != "clear") || len(ci.Common().Args) == 0 {
+					continue
+				}
+				a := ci.Common().Args[0]
+				if a == ssa.Value(p) {
+					return true
+				}
+				// captured parameter: a load of a free variable / cell of the same name and type
+				if u, ok := a.(*ssa.UnOp); ok && u.Op == token.MUL {
+					if fv, ok := u.X.(*ssa.FreeVar); ok && fv.Name() == p.Name() {
+						return true
+					}
+					if al, ok := u.X.(*ssa.Alloc); ok && al.Comment == p.Name() {
+						return true
+					}
+				}
+				if fv, ok := a.(*ssa.FreeVar); ok && fv.Name() == p.Name() {
+					return true
+				}
+			}
+		}
+		return false
+	}
+	for _, f := range c.RepoFunctions() {
+		if core.IsCLIOrSample(core.FuncPkg(f)) {
+			continue
+		}
+		for _, ci := range core.Calls(f) {
+			putArg, isPut := poolPutArg(ci)
+			if !isPut {
+				continue
+			}
+			x := core.Unwrap(putArg, true)
+			switch x.Type().Underlying().(type) {
+			case *types.Map, *types.Slice:
+			default:
+				continue
+			}
+			if ta, ok := x.(*ssa.TypeAssert); ok {
+				_ = ta
+			}
+			n++
+			key := core.FuncKey(f) + " returns a container to the pool empty"
+			isClearing := func(in ssa.Instruction) bool {
+				call, ok := in.(ssa.CallInstruction)
+				if !ok {
+					return false
+				}
+				if bi, ok := call.Common().Value.(*ssa.Builtin); ok && bi.Name() == "clear" && len(call.Common().Args) == 1 && call.Common().Args[0] == x {
+					return true
+				}
+				if _, isDefer := in.(*ssa.Defer); isDefer {
+					return false
+				}
+				if cf := call.Common().StaticCallee(); cf != nil && core.InRepo(core.FuncPkg(cf)) {
+					for i, a := range call.Common().Args {
+						if core.Unwrap(a, true) == x && clearsParam(cf, i) {
+							return true
+						}
+					}
+				}
+				return false
+			}
+			isWrite := func(in ssa.Instruction) bool {
+				switch y := in.(type) {
+				case *ssa.MapUpdate:
+					return y.Map == x
+				case *ssa.Store:
+					if ia, ok := y.Addr.(*ssa.IndexAddr); ok {
+						return ia.X == x
+					}
+				}
+				return false
+			}
+			_, deferred := ci.(*ssa.Defer)
+			var badW, badExit ssa.Instruction
+			for _, b := range f.Blocks {
+				for _, in := range b.Instrs {
+					if !isWrite(in) || badW != nil {
+						continue
+					}
+					// walk forward from the write; stop at clearing events; the container must not reach the Put dirty
+					core.WalkAfter(in, func(u ssa.Instruction) bool {
+						if badW != nil {
+							return false
+						}
+						if isClearing(u) {
+							return false
+						}
+						if deferred {
+							if _, isRet := u.(*ssa.Return); isRet {
+								badW, badExit = in, u
+								return false
+							}
+							if _, isPanic := u.(*ssa.Panic); isPanic {
+								return false
+							}
+						} else if u == ssa.Instruction(ci) {
+							badW, badExit = in, u
+							return false
+						}
+						return true
+					})
+				}
+			}
+			if badW != nil {
+				c.Bad(rule, key, core.InstrPos(badW), fmt.Sprintf("an entry written here can still be in the container when it is handed back to the pool (path to %s without clear() or a call that empties it): the next user of the pooled object — another call, another goroutine — starts with this call's data", c.Position(core.InstrPos(badExit))))
+			} else {
+				c.OK(rule, key, core.InstrPos(ci), "every path from a write into the container to the Put passes a point that empties it")
+			}
+		}
+	}
+	c.OK(rule, "pooled containers", 0, fmt.Sprintf("%d sync.Pool.Put site(s) whose object is a map or slice", n))
+}
+
+func init() {
+	for _, pr := range [][2]string{{"C20", "R20h"}, {"C13", "R13h"}, {"C10", "R10n"}, {"C15", "R15m"}} {
+		pr := pr
+		wrapRun(pr[0], func(c *core.Ctx) {
+			if c.CountRule(pr[1]) == 0 {
+				pooledContainersBlank(c, pr[1])
+			}
+		})
+	}
+}
